@@ -475,7 +475,23 @@ def run_C18(ctx):
             open(p, 'w').write(t)
             paths.append(p); texts.append(t)
         dumps = vlib.run_dump(paths, flags=['-dot', '-debug'])
-        for (gname, g), t, d in zip(gs, texts, dumps):
+        # the Coq model of DrawGrammar (Draw.draw_nodes / draw_edges, extracted) on the table of the same run
+        cmds = []
+        for gi, d in enumerate(dumps):
+            if d.get('ok'):
+                gt = d['gtable']
+                cmds.append('W g%d %d %d %s\n' % (gi, len(gt), len(gt[0]) if gt else 0, ' '.join(str(c) for row in gt for c in row)))
+        mdraw = {}
+        for ln in vlib.model_eval_chunks(cmds):
+            f = ln.split()
+            if len(f) >= 3 and f[0] == 'W':
+                md = mdraw.setdefault(f[1], dict(edges=[], look={}, acc={}))
+                if f[2] == 'E':
+                    md['edges'] = [tuple(int(x) for x in e.split(':')) for e in f[3:]]
+                elif f[2] == 'N':
+                    md['acc'][int(f[3])] = f[4] == '1'
+                    md['look'][int(f[3])] = [tuple(int(x) for x in e.split(':')) for e in f[5:]]
+        for gi, ((gname, g), t, d) in enumerate(zip(gs, texts, dumps)):
             if not d.get('ok'):
                 continue
             ctx.evaluations += 1
@@ -518,7 +534,11 @@ def run_C18(ctx):
                 nodes, edges = parse_dot(dot)
                 if sorted(nodes) != list(range(n)):
                     problems.append('graph: nodes %s, the automaton has states 0..%d' % (sorted(nodes)[:12], n - 1))
-                want_edges = sorted((q, raw_name(sname[a]), gt[q][a]) for q in range(n) for a in range(len(gt[q])) if gt[q][a] >= 0 and gt[q][a] not in (err, acc))
+                md = mdraw.get('g%d' % gi)
+                if md is None:
+                    ctx.violation('no-failing-input-found', 'grammar %s: the model of DrawGrammar gave no answer' % gname, case, interface='I8')
+                    continue
+                want_edges = sorted((q, raw_name(sname[a]), to) for (q, a, to) in md['edges'])
                 if sorted(edges) != want_edges:
                     miss = [e for e in want_edges if e not in edges][:3]
                     extra = [e for e in edges if e not in want_edges][:3]
@@ -528,12 +548,12 @@ def run_C18(ctx):
                     if nd is None:
                         continue
                     items = [item_text_dot(d, r, dt) for (r, dt) in d['lr0'][q]['items']]
-                    looks = ['%s: reduce rule at %d' % (raw_name(sname[a]), -gt[q][a]) for a in range(len(gt[q])) if gt[q][a] < 0]
+                    looks = ['%s: reduce rule at %d' % (raw_name(sname[a]), r) for (a, r) in md['look'].get(q, [])]
                     want_fields = ['<f0> state %d' % q, items] + ([looks] if looks else [])
                     got_fields = split_record(nd['label']) if nd['label'] is not None else None
                     if got_fields != want_fields:
                         problems.append('graph, state %d: the label %r reads as %r; the items and reductions of the table are %r' % (q, nd['label'], got_fields, want_fields))
-                    is_acc = any(c == acc for c in gt[q])
+                    is_acc = md['acc'].get(q, False)
                     if nd['filled'] != is_acc:
                         problems.append('graph, state %d: %s as accepting, the table %s' % (q, 'marked' if nd['filled'] else 'not marked', 'accepts there' if is_acc else 'does not accept there'))
             if any(c < 0 for row in gt for c in row) and any(c == acc for row in gt for c in row):
